@@ -165,9 +165,20 @@ PROPS['C12'] = {
 
 PROPS['C18'] = {
     'level': 'other', 'claimed': True,
-    'claim': 'determinism reduced to one-run proofs: map iteration is modelled demonically (every Next delivers an arbitrary not-yet-visited key), and at the anchored sites a postcondition/invariant that determines the result from the inputs alone is proved for every iteration order: (1) asr up-pass, expansion of the "any amino acid" code: the set of expanded states equals the alphabet minus gap and "*", whatever the order; (2) Tree.Rename: after any prefix of the iteration every indexed node carries namemap[name] if its key was delivered and its original name otherwise, and the name index is not modified inside the loop. Together with C19/C20 style seed handling this is a sufficient-condition argument, not a whole-program 2-safety proof',
+    'claim': '(a) structural: the listed traversal, selection, output and generator functions contain no iteration over a map at all (one obligation per function, regenerated from the SSA of the current tree); (b) determinism reduced to one-run proofs: map iteration is modelled demonically (every Next delivers an arbitrary not-yet-visited key), and at the anchored sites a postcondition/invariant that determines the result from the inputs alone is proved for every iteration order: (1) asr up-pass, expansion of the "any amino acid" code: the set of expanded states equals the alphabet minus gap and "*", whatever the order; (2) Tree.Rename: after any prefix of the iteration every indexed node carries namemap[name] if its key was delivered and its original name otherwise, and the name index is not modified inside the loop. Together with C19/C20 style seed handling this is a sufficient-condition argument, not a whole-program 2-safety proof',
     'level_note': 'the engine never converts pointers to integers and compares pointers only for equality, so addresses are unobservable in the verified functions; rand is a function of the seed (A-RAND); acr alphabet construction, nexus writer label tables and cross-process byte identity are not under contract',
     'packages': ALLPK,
+    'special': ['c18'],
+    'ordered_functions': ['(*tree.Tree).LeastCommonAncestorUnrooted', '(*tree.Tree).LeastCommonAncestorRooted', '(*tree.Tree).LeastCommonAncestorRecur',
+                          '(*tree.Tree).RerootOutGroup', '(*tree.Tree).RerootMidPoint', 'tree.MaxLengthPath',
+                          '(*tree.Tree).Tips', '(*tree.Tree).tipsRecur', '(*tree.Tree).SortedTips', '(*tree.Tree).AllTipNames',
+                          '(*tree.Tree).Edges', '(*tree.Tree).edgesRecur', '(*tree.Tree).Nodes', '(*tree.Tree).nodesRecur',
+                          '(*tree.Tree).Newick', '(*tree.Node).Newick', 'io/nexus.WriteNexus', '(*tree.Tree).ToDistanceMatrix',
+                          'tree.RandomUniformBinaryTree', 'tree.RandomYuleBinaryTree', '(*tree.Tree).ShuffleTips', '(*tree.Node).RotateNeighbors',
+                          'tree.Consensus', '(*tree.EdgeIndex).Edges', '(*hashmap.HashMap).KeyValues', '(*hashmap.HashMap).Keys',
+                          'acr.parsimonyUPPASS', 'acr.parsimonyDOWNPASS', 'acr.parsimonyDELTRAN', 'acr.parsimonyACCTRAN', 'acr.assignStatesToTree',
+                          'asr.parsimonyDOWNPASS', 'asr.parsimonyDELTRAN', 'asr.parsimonyACCTRAN',
+                          'cmd.randomTips', 'cmd.sampleCmd.RunE'],
     'functions': [('asr.parsimonyUPPASS', {'match': [r'^inv\..*L2']}),
                   ('(*tree.Tree).Rename', {'match': [r'^inv', r'^loopframe', r'^nil', r'^pre']}), 'cmd.RootCmd.PersistentPreRun'],
     'trusted_base': TB_COMMON,
